@@ -43,6 +43,11 @@ class Census(Monitor):
                 b = d.get('budget')
                 self.budget[d['name']] = INF if b is None else b
 
+    def created(self, w, d, t0):
+        if d['kind'] == 'source':
+            b = d.get('budget')
+            self.budget[d['name']] = INF if b is None else b
+
     def start(self, w):
         self.check(w)
 
@@ -322,6 +327,13 @@ class DataMon(Monitor):
         self.pre = self._lens(w)
         self.pre_sup = {s.name: Census.supplied(s) for s in w.sources()}
 
+    @staticmethod
+    def _mt_of(w, ev):
+        '''The maintainer whose event is executing (work-order hooks are called from its start/finish events).'''
+        from simprocesd.model.factory_floor import Maintainer as _M
+        o = ev_owner(ev)
+        return o.name if isinstance(o, _M) else w.maintainer.name
+
     def _new(self, w, lab, name):
         recs = w.env.simulation_data.get(lab, {}).get(name, [])
         return recs[self.pre.get((lab, name), 0):]
@@ -370,11 +382,11 @@ class DataMon(Monitor):
             elif t[0] == 'finished':
                 add('produced_part', t[1], (now, t[2], t[4], t[5]))
             elif t[0] == 'wo_request' and t[3]:
-                add('enter_queue', w.maintainer.name, (now, t[1], t[2], None))
+                add('enter_queue', t[4], (now, t[1], t[2], None))
             elif t[0] == 'start_work':
-                add('start_work_order', w.maintainer.name, (now, t[1], t[2], None))
+                add('start_work_order', self._mt_of(w, ev), (now, t[1], t[2], None))
             elif t[0] == 'end_work':
-                add('finish_work_order', w.maintainer.name, (now, t[1], t[2], None))
+                add('finish_work_order', self._mt_of(w, ev), (now, t[1], t[2], None))
         # supplied parts: accepted top-level hand-overs made by a source
         actor = dev_by_id(w, w.hub.actor)
         if isinstance(actor, Source):
@@ -543,6 +555,14 @@ class CycleMon(Monitor):
                 self.src_items[d['name']] = 0
     _canon_skip = ('specs',)
 
+    def created(self, w, d, t0):
+        self.specs[d['name']] = d
+        if d['kind'] in ('handler', 'processor'):
+            self.cur[d['name']] = d.get('cycle', 0)
+        if d['kind'] == 'source':
+            self.src_base[d['name']] = t0            # a source created at t0 starts its first cycle at t0
+            self.src_items[d['name']] = 0
+
     def before(self, w, label, ev):
         dt = ev.time - w.env.now
         if dt < 0:
@@ -670,6 +690,12 @@ class ShutdownMon(Monitor):
             self.up[p.name] = 0
             self.use[p.name] = 0
         self.check_acct(w)
+
+    def created(self, w, d, t0):
+        if d['kind'] == 'processor':
+            self.up[d['name']] = 0        # operational time is counted from the creation of the machine
+            self.use[d['name']] = 0
+            self.pre[d['name']] = (True, None, None)
 
     def before(self, w, label, ev):
         dt = ev.time - w.env.now
@@ -877,6 +903,13 @@ class RouteMon(Monitor):
             if _is_cycle_dev(d):
                 self.idle_since[d.name] = 0
         self.check_histories(w)
+
+    def created(self, w, d, t0):
+        self.kinds[d['name']] = d['kind']
+        if d['kind'] not in ('maintainer', 'group', 'obj', 'scheduler', 'psensor', 'osensor', 'cms'):
+            self.up[d['name']] = list(d.get('up', []))
+            if d['kind'] in ('handler', 'processor'):
+                self.idle_since[d['name']] = t0
 
     def downstream_of(self, name):
         return [d for d, ups in self.up.items() if name in ups]
@@ -1149,6 +1182,17 @@ class ScheduleMon(Monitor):
         self.ref[d['name']] = {'idx': 0, 'state': None, 'next': None, 'reg': [list(x) for x in d.get('targets', [])],
                                't0': t0, 'nrec': 0, 'started': False}
 
+    def created(self, w, d, t0):
+        if d['kind'] == 'scheduler':
+            # a scheduler created while running starts up inside its constructor, i.e. before anything can be
+            # registered with it: its targets are registered afterwards and are affected from the next change on
+            self.add(d, t0)
+            reg = self.ref[d['name']]['reg']
+            self.ref[d['name']]['reg'] = []
+            self.startup(w, d['name'], [t for t in w.hub.tlog])
+            self.ref[d['name']]['reg'] = reg
+            self.ref[d['name']]['skip_once'] = True
+
     def startup(self, w, name, tl):
         '''Obligations at start-up: first state, one record, one action per registered object.'''
         r = self.ref[name]
@@ -1209,6 +1253,8 @@ class ScheduleMon(Monitor):
         for name, r in self.ref.items():
             if not r['started']:
                 continue
+            if r.pop('skip_once', False):
+                continue          # created in this very transition: start-up obligations were checked at creation
             sched = w.dev[name]
             own = ev_owner(ev) is sched and ev_action_name(ev) == '_update_state' and not ev.cancelled
             changed = False
@@ -1270,11 +1316,20 @@ class SensorMon(Monitor):
             if d['kind'] in ('psensor', 'osensor'):
                 self.add(w, d, 0)
 
+    def created(self, w, d, t0):
+        if d['kind'] in ('psensor', 'osensor'):
+            self.add(w, d, t0)
+        if d['kind'] == 'cms':
+            for sname in d.get('sensors', []):
+                if sname in self.ref and d['name'] not in self.ref[sname]['cms']:
+                    self.ref[sname]['cms'].append(d['name'])
+
     def add(self, w, d, t0):
         self.specs[d['name']] = d
         cms = []
-        for c in w.spec['devices'] + w.spec.get('late', []):
-            if c['kind'] == 'cms' and d['name'] in c.get('sensors', []) and c['name'] not in cms:
+        for c in w.spec['devices']:
+            if c['kind'] == 'cms' and d['name'] in c.get('sensors', []) and c['name'] not in cms and \
+                    (c['name'] in w.dev or t0 == 0):
                 cms.append(c['name'])
         r = {'kind': d['kind'], 'series': [[] for _ in d['probes']], 'times': [], 'count': 0, 'last': [], 'cms': cms,
              't0': t0}
@@ -1380,3 +1435,79 @@ class SensorMon(Monitor):
         for name, r in self.ref.items():
             if r['kind'] == 'psensor' and name in w.dev and r['next'] <= w.env.now:
                 raise Violation('missed_sample', f'{name}: run ended at {w.env.now}, measurement due at {r["next"]} never taken')
+
+
+# ============================================================================ C20
+
+@monitor('lifecycle')
+class LifecycleMon(Monitor):
+    '''C20 (in situ): registration with the active system, exactly one initialisation (observed by a logging wrapper
+    around Asset.initialize), never again when a simulation is continued, look-up = filter of the registered list.'''
+    prop = 'C20'
+
+    def __init__(self):
+        self.registered = []      # names in registration order
+        self.inits = {}
+
+    def start(self, w):
+        self.registered = [a.name for a in w.system._assets]
+        for t in w.hub.tlog:
+            if t[0] == 'initialize':
+                self.inits[t[1]] = self.inits.get(t[1], 0) + 1
+        for a in w.system._assets:
+            if self.inits.get(a.name, 0) != 1:
+                raise Violation('initialised_once', f'{a.name} initialised {self.inits.get(a.name, 0)} times by the first simulate()')
+            if a.env is not w.env:
+                raise Violation('initialised_once', f'{a.name}.env is not the environment of its system after initialisation')
+        self.lookup(w)
+
+    def after(self, w, label, ev):
+        names = set(self.registered)
+        created = [t for t in w.hub.tlog if t[0] == 'created']
+        for t in w.hub.tlog:
+            if t[0] == 'initialize' and (t[1] in names or any(c[1] == t[1] for c in created)):
+                self.inits[t[1]] = self.inits.get(t[1], 0) + 1
+        for c in created:
+            if c[2] in ('obj', 'group'):
+                continue
+            self.registered.append(c[1])
+            o = w.dev[c[1]]
+            if self.inits.get(c[1], 0) != 1:
+                raise Violation('late_initialised', f'{c[1]} ({c[2]}) created at t={c[3]} while the simulation is running was '
+                                                    f'initialised {self.inits.get(c[1], 0)} times')
+            if o.env is not w.env:
+                raise Violation('late_initialised', f'{c[1]} ({c[2]}) created at t={c[3]}: its environment is {o.env!r} after '
+                                                    f'construction, so it cannot take part in the simulation')
+            w.facts.append('late_created:' + c[2])
+        for n, k in self.inits.items():
+            if k > 1:
+                raise Violation('initialised_once', f'{n} initialised {k} times')
+        got = [a.name for a in w.system._assets]
+        if got != self.registered:
+            raise Violation('registry', f'registered assets {got}, expected (creation order) {self.registered}')
+        if created:
+            self.lookup(w)
+
+    def final(self, w):
+        self.lookup(w)
+
+    def lookup(self, w):
+        from simprocesd.model.factory_floor import Source as _S, PartProcessor as _P, PartHandler as _H, Maintainer as _M
+        assets = list(w.system._assets)
+        some = assets[len(assets) // 2]
+        names = (None, some.name, 'no such asset')
+        ids = (None, some.id, 987654)
+        types = (None, type(some), _S, _P)
+        subs = (None, _H, _M, _P)
+        for nm in names:
+            for i in ids:
+                for ty in types:
+                    for sb in subs:
+                        got = w.system.find_assets(name=nm, id_=i, type_=ty, subtype=sb)
+                        want = [a for a in assets if (nm is None or a.name == nm) and (i is None or a.id == i)
+                                and (ty is None or type(a) is ty) and (sb is None or isinstance(a, sb))]
+                        if len(got) != len(want) or any(x is not y for x, y in zip(got, want)):
+                            raise Violation('find_assets', f'find_assets(name={nm}, id_={i}, type_={ty}, subtype={sb}) -> '
+                                                           f'{[a.name for a in got]}, registered assets matching all filters: '
+                                                           f'{[a.name for a in want]}')
+        w.facts.append('lookup_checked')
